@@ -75,6 +75,7 @@ fn main() {
     let mut files: Vec<String> = Vec::new();
     let mut big = false;
     let mut hang_secs = 30u64;
+    let mut kinds: Option<Vec<u8>> = None;
     let mut i = 1;
     while i < args.len() {
         match args[i].as_str() {
@@ -82,6 +83,7 @@ fn main() {
             "--threads" => { threads = args[i + 1].parse().unwrap(); i += 1 }
             "--force-backend" => { force = Some(args[i + 1].parse().unwrap()); i += 1 }
             "--big" => big = true,
+            "--kinds" => { kinds = Some(args[i + 1].split(',').filter(|x| !x.is_empty()).map(|x| x.parse().unwrap()).collect()); i += 1 }
             "--hang-secs" => { hang_secs = args[i + 1].parse().unwrap(); i += 1 }
             x => files.push(x.to_string()),
         }
@@ -104,6 +106,7 @@ fn main() {
     let mut handles = Vec::new();
     for t in 0..threads {
         let rx = rx.clone();
+        let kinds = kinds.clone();
         handles.push(std::thread::spawn(move || {
             let mut ctx = Ctx::new(modes, big);
             let mut bad_lines = 0u64;
@@ -115,7 +118,11 @@ fn main() {
                     CUR_LEN[t].store(line.len(), Ordering::SeqCst);
                     BUSY[t].store(1, Ordering::SeqCst);
                     match Vector::parse(&line) {
-                        Ok(v) => ctx.process(&v, strip_line(&line).unwrap_or(&line), idx),
+                        Ok(v) => {
+                            if kinds.as_ref().map(|k| k.contains(&v.kind)).unwrap_or(true) {
+                                ctx.process(&v, strip_line(&line).unwrap_or(&line), idx)
+                            }
+                        }
                         Err(_) => bad_lines += 1,
                     }
                     BEAT[t].fetch_add(1, Ordering::SeqCst);
